@@ -25,6 +25,9 @@ RULE = (
     "schedules with 2-3 change points; (c) random walks (p = 0.02 per point); same seed => same switch trace; (2) free-running stress with "
     "sys.setswitchinterval(1e-6). distinct_nontrivial = distinct switch traces with at least one switch inside library code, plus stress rounds."
 )
+TECHNIQUE = (
+    "runtime monitoring: forced thread interleavings through sys.monitoring (site-directed single and double preemption, first-use schedules, PCT/random walks) plus free-running stress; oracle = each thread's solo outcomes"
+)
 ASSUMPTIONS = [
     "the documented threading contract: one Environment and program per thread",
     "preemption is explored at Python-line granularity inside the library; a 30 s wait watchdog per schedule makes the schedule inconclusive, never a violation",
